@@ -58,34 +58,68 @@ func (c *Ctx) wrapperCtor(fn *types.Func) (kind string, ok bool) {
 	if fd == nil || kind == "" {
 		return "", false
 	}
-	// exactly one composite literal of W; if W has a payload, its value is the (only) parameter
-	var lits []*ast.CompositeLit
-	ast.Inspect(fd.Body, func(m ast.Node) bool {
-		if cl, ok := m.(*ast.CompositeLit); ok {
-			if t := c.typeOf(cl); t != nil && types.Identical(t, n) {
-				lits = append(lits, cl)
-			}
-		}
-		return true
-	})
-	if len(lits) != 1 {
-		return "", false
+	// on every path the function returns the address of a fresh W whose payload (if W has one) is the only parameter, unconverted, and
+	// does nothing else — decided on its symbolic paths (a cache lookup, a masked index or a conversion in front of the literal is not this)
+	if st, busy := c.ctorMemo[fn]; busy {
+		return kind, st == 1
 	}
-	if kind == "nil" {
-		return kind, sig.Params().Len() == 0 && len(lits[0].Elts) == 0
+	if c.ctorMemo == nil {
+		c.ctorMemo = map[*types.Func]int{}
 	}
-	if sig.Params().Len() != 1 || len(lits[0].Elts) != 1 {
-		return "", false
-	}
-	v := lits[0].Elts[0]
-	if kv, ok := v.(*ast.KeyValueExpr); ok {
-		v = kv.Value
-	}
+	c.ctorMemo[fn] = 0 // in progress: not a constructor as far as recursive questions are concerned
 	var par types.Object
-	if len(fd.Type.Params.List) == 1 && len(fd.Type.Params.List[0].Names) == 1 {
+	if kind != "nil" {
+		if sig.Params().Len() != 1 || len(fd.Type.Params.List) != 1 || len(fd.Type.Params.List[0].Names) != 1 {
+			return "", false
+		}
 		par = c.Info.Defs[fd.Type.Params.List[0].Names[0]]
+	} else if sig.Params().Len() != 0 {
+		return "", false
 	}
-	return kind, par != nil && c.obj(v) == par
+	x := c.NewSX()
+	x.MaxDepth = 1
+	good := true
+	paths := x.Run(fd)
+	for _, p := range paths {
+		if p.Why != "" || p.End != "return" || len(p.Vals) != 1 {
+			good = false
+			break
+		}
+		t := p.Vals[0]
+		if ad, ok := t.(TAddr); ok {
+			t = ad.X
+		}
+		// `obj := W{v}; return &obj`: the literal is bound to an addressed local first (recorded as a store to that local)
+		effs := p.Effects()
+		if tv, isVar := t.(TVar); isVar && len(effs) == 1 && effs[0].Kind == "store" && sameTerm(effs[0].LHS, tv) {
+			t = effs[0].RHS
+			effs = nil
+		}
+		if len(effs) != 0 {
+			good = false
+			break
+		}
+		lit, ok := t.(TLit)
+		if !ok || lit.Type == nil || !types.Identical(lit.Type, n) {
+			good = false
+			break
+		}
+		if kind == "nil" {
+			good = len(lit.Elts) == 0
+		} else {
+			good = len(lit.Elts) == 1 && isParamTerm(lit.Elts[0], par)
+		}
+		if !good {
+			break
+		}
+	}
+	good = good && len(paths) > 0
+	if good {
+		c.ctorMemo[fn] = 1
+	} else {
+		c.ctorMemo[fn] = 2
+	}
+	return kind, good
 }
 
 func isIntegerType(t types.Type) (*types.Basic, bool) {
@@ -659,6 +693,9 @@ func c12R3(c *Ctx) {
 					kind = c.kindOfType(T)
 					if kind == "" {
 						bad = "case type " + shortType(T) + " does not identify a stored kind"
+					}
+					if (kind == "object" || kind == "list") && !types.IsInterface(T) {
+						bad = "the " + kind + " case tests the concrete type " + shortType(T) + ", not the interface: a derived container (a user type embedding the interface) stored in a spine would be reported as TypeUndefined"
 					}
 				}
 			}
